@@ -55,6 +55,9 @@ pub mod rustc_hash {
     pub type FxHashMap<K, V> = std::collections::HashMap<K, V>;
 }
 
+// machine word: usize is 64 bit (DESIGN §7)
+verus! { global size_of usize == 8; }
+
 // ---- opaque std types ---------------------------------------------------------------
 verus! {
 #[verifier::external_type_specification]
@@ -78,4 +81,18 @@ pub mod vx_facts {
     pub broadcast axiom fn ax_vec_len<T>(v: Vec<T>)
         ensures #[trigger] v@.len() <= usize::MAX;
     }
+}
+
+// ---- R9 trusted wrappers (same body as the std call they rename; only the contract is new) ----
+verus! {
+pub trait VxAsDeref {
+    spec fn vx_view(&self) -> Option<Seq<char>>;
+    fn vx_as_deref(&self) -> (r: Option<&str>)
+        ensures (match r { Some(s) => self.vx_view() == Some(s@), None => self.vx_view() is None });
+}
+impl VxAsDeref for Option<String> {
+    open spec fn vx_view(&self) -> Option<Seq<char>> { match self { Some(s) => Some(s@), None => None } }
+    #[verifier::external_body]
+    fn vx_as_deref(&self) -> (r: Option<&str>) { self.as_deref() }
+}
 }
